@@ -2931,7 +2931,7 @@ func (r *Resolver) lookupNSAddrV6(ctx context.Context, qname string, cd bool) (a
 
 func (r *Resolver) lookupV4Nss(ctx context.Context, q dns.Question, authservers *authority.Servers, key uint64, parentDS []dns.RR, foundv4, hosts hostSet, cd bool, cutDeadline time.Time) error {
 	list := sortHosts(hosts, q.Name)
-	var lastAttemptLimit error
+	var lastLocalErr error
 
 	for _, name := range list {
 		// Hosts is copied by readers (checkHosts) under RLock once
@@ -2984,12 +2984,16 @@ func (r *Resolver) lookupV4Nss(ctx context.Context, q dns.Question, authservers 
 				errors.Is(err, context.DeadlineExceeded) {
 				return err
 			}
-			if errors.Is(err, middleware.ErrResolutionAttemptLimit) {
+			if middleware.IsRequestLocalResolutionError(err) {
 				// RFC 9520 keys by question tuple: exhausting one NS
 				// hostname must not prevent trying the delegation's other
-				// hostnames.
-				lastAttemptLimit = err
-				zlog.Debug("Lookup NS ipv4 address reached attempt limit", "query", dnsutil.FormatQuestion(q), "ns", name)
+				// hostnames. The same holds for every other verdict that
+				// describes this request or this process rather than the
+				// name server (a shed address lookup, a probe-election
+				// limit): if it leaves the delegation without any server,
+				// that is not "no reachable authority".
+				lastLocalErr = err
+				zlog.Debug("Lookup NS ipv4 address reached a request-local limit", "query", dnsutil.FormatQuestion(q), "ns", name, "error", err.Error())
 				continue
 			}
 			zlog.Debug("Lookup NS ipv4 address failed", "query", dnsutil.FormatQuestion(q), "ns", name, "error", err.Error())
@@ -3024,12 +3028,12 @@ func (r *Resolver) lookupV4Nss(ctx context.Context, q dns.Question, authservers 
 		r.addIPv4Cache(nsipv4)
 	}
 
-	if lastAttemptLimit != nil {
+	if lastLocalErr != nil {
 		authservers.RLock()
 		hasServer := len(authservers.List) > 0
 		authservers.RUnlock()
 		if !hasServer {
-			return lastAttemptLimit
+			return lastLocalErr
 		}
 	}
 	return nil
